@@ -32,6 +32,7 @@ type wCase struct {
 	Styles  []wStyle `json:"styles"`
 	Regions [][]int  `json:"regions"`
 	Meta    bool     `json:"meta"`
+	Keys    int      `json:"keys"` // 0: map key = ID; 1: foreign keys; 2: foreign keys, the first two styles / regions share one ID
 	Scheme  int      `json:"-"` // naming scheme of the definitions (set by the driver from the case number)
 }
 
@@ -43,7 +44,34 @@ var styleNames = [][]string{
 	{"Zed", "default", "Main", "xtra", "A", "mid"},
 }
 
-func styleName(c wCase, i int) string { return styleNames[c.Scheme%len(styleNames)][i%6] }
+func styleName(c wCase, i int) string {
+	if c.Keys == 2 && i == 1 {
+		i = 0
+	}
+	return styleNames[c.Scheme%len(styleNames)][i%6]
+}
+
+// styleKey / regionKey: the map key of the i-th style / region; foreign keys sort differently from the IDs
+func styleKey(c wCase, i int) string {
+	if c.Keys == 0 {
+		return styleName(c, i)
+	}
+	return fmt.Sprintf("k%d-%s", (7-i)%7, styleNames[c.Scheme%len(styleNames)][i%6])
+}
+
+func regionID(c wCase, i int) string {
+	if c.Keys == 2 && i == 1 {
+		i = 0
+	}
+	return "r" + strconv.Itoa(i+1)
+}
+
+func regionKey(c wCase, i int) string {
+	if c.Keys == 0 {
+		return regionID(c, i)
+	}
+	return fmt.Sprintf("q%d", 9-i)
+}
 
 type wEvent struct {
 	N      int    `json:"n"`
@@ -51,6 +79,7 @@ type wEvent struct {
 	List   int    `json:"list"`
 	Fmt    string `json:"fmt"`
 	Kind   string `json:"kind"` // repeat | rebuilt | order | process | clock
+	Keys   int    `json:"keys"` // how the list's maps are keyed (wCase.Keys)
 	Proc   int    `json:"proc"`
 	Digest string `json:"digest"`
 	Orig   string `json:"orig"`
@@ -97,11 +126,10 @@ func buildW(c wCase, r *rand.Rand) *astisub.Subtitles {
 		for _, l := range st.Css {
 			sa.WebVTTStyles = append(sa.WebVTTStyles, fmt.Sprintf("::cue(.s%d) { color: c%d }", i, l))
 		}
-		id := styleName(c, i)
-		s.Styles[id] = &astisub.Style{ID: id, InlineStyle: sa}
+		s.Styles[styleKey(c, i)] = &astisub.Style{ID: styleName(c, i), InlineStyle: sa}
 	}
 	if len(c.Styles) > 1 {
-		s.Styles[styleName(c, 1)].Style = s.Styles[styleName(c, 0)]
+		s.Styles[styleKey(c, 1)].Style = s.Styles[styleKey(c, 0)]
 	}
 	rorder := r.Perm(len(c.Regions))
 	for _, i := range rorder {
@@ -116,12 +144,11 @@ func buildW(c wCase, r *rand.Rand) *astisub.Subtitles {
 				sa.TTMLOrigin = sp2("10% 80%")
 			}
 		}
-		id := "r" + strconv.Itoa(i+1)
-		rg := &astisub.Region{ID: id, InlineStyle: sa}
+		rg := &astisub.Region{ID: regionID(c, i), InlineStyle: sa}
 		if len(c.Styles) > 0 && i%2 == 0 {
-			rg.Style = s.Styles[styleName(c, 0)]
+			rg.Style = s.Styles[styleKey(c, 0)]
 		}
-		s.Regions[id] = rg
+		s.Regions[regionKey(c, i)] = rg
 	}
 	for k := 0; k < 3; k++ {
 		j := astisub.JustificationCentered
@@ -132,14 +159,14 @@ func buildW(c wCase, r *rand.Rand) *astisub.Subtitles {
 				WebVTTTags: []astisub.WebVTTTag{{Name: "b"}}, SSAEffect: `{\i1}`}}}}, {Items: []astisub.LineItem{{Text: "second line"}}}}}
 		if len(c.Styles) > 0 && k != 2 {
 			// the third cue has no style of its own (though its region may have one)
-			it.Style = s.Styles[styleName(c, k%len(c.Styles))]
-			it.Lines[0].Items[0].Style = s.Styles[styleName(c, 0)]
+			it.Style = s.Styles[styleKey(c, k%len(c.Styles))]
+			it.Lines[0].Items[0].Style = s.Styles[styleKey(c, 0)]
 		}
 		if k == 1 {
 			it.InlineStyle = nil // a cue without any inline attribute
 		}
 		if len(c.Regions) > 0 {
-			it.Region = s.Regions["r"+strconv.Itoa(k%len(c.Regions)+1)]
+			it.Region = s.Regions[regionKey(c, k%len(c.Regions))]
 		}
 		s.Items = append(s.Items, it)
 	}
@@ -221,6 +248,7 @@ func cmdWriters(args []string) error {
 			c.Regions = append(c.Regions, rg)
 		}
 		c.Meta = rr.Intn(2) == 0
+		c.Keys = rr.Intn(3)
 		cases = append(cases, c)
 	}
 	for i := range cases {
@@ -231,16 +259,18 @@ func cmdWriters(args []string) error {
 	astisub.Now = func() time.Time { return fixed }
 	n := *n0
 	var events []wEvent
+	curKeys := 0
 	emit := func(list int, f, kind string, s *astisub.Subtitles, orig string) {
 		pre := project.Digest(s)
 		d, res, msg := writeOnce(s, f)
 		post := project.Digest(s)
 		n++
-		events = append(events, wEvent{N: n, List: list, Fmt: f, Kind: kind, Proc: *child, Digest: d, Orig: orig, Pre: pre, Post: post, Res: res, Msg: msg})
+		events = append(events, wEvent{N: n, List: list, Fmt: f, Kind: kind, Keys: curKeys, Proc: *child, Digest: d, Orig: orig, Pre: pre, Post: post, Res: res, Msg: msg})
 	}
 	r := rand.New(rand.NewSource(*seed + int64(*child)*7919))
 	for ci, c := range cases {
 		list := *n0 + ci + 1
+		curKeys = c.Keys
 		s := buildW(c, r)
 		orig := project.Digest(s)
 		kind := "repeat"
